@@ -64,6 +64,8 @@ pub trait DynColl<T: Elem>: Send + Sync {
     fn iter_cow(&mut self, items: &[Option<T>]) -> Option<Result<usize, Error>>;
     fn push(&mut self, v: T) -> Option<Result<(), Error>>;
     fn bulk(&mut self, pairs: &[(usize, T)]) -> Option<Result<(), Error>>;
+    /// like `bulk`, but the map is filled through `get_mut_with` (`cow == false`) or `get_cow_with` + `into_mut`
+    fn bulk_via(&mut self, cow: bool, pairs: &[(usize, T)]) -> Option<Result<(), Error>>;
     fn pop_front(&mut self, n: usize) -> Option<Result<(), Error>>;
     fn pop_front_slow(&mut self, n: usize) -> Option<Result<(), Error>>;
     /// `Vector::try_from(self.clone())`.
@@ -105,6 +107,27 @@ fn build_map<T: Elem, U: Map<T>>(pairs: &[(usize, T)]) -> U {
     let mut m = U::default();
     for (i, v) in pairs {
         m.insert(*i, v.clone());
+    }
+    m
+}
+
+/// The same map entered through the other two public ways of putting a value into an `UpdateMap`:
+/// `get_mut_with(i, |_| Some(v))` (what `Interface::get_mut` uses) or `get_cow_with(i, |_| Some(&v))` followed by
+/// `into_mut()` (what `Interface::get_cow` hands out). A later pair for the same index overwrites through the
+/// returned reference, like `insert` would.
+fn build_map_via<T: Elem, U: Map<T>>(cow: bool, pairs: &[(usize, T)]) -> U {
+    use milhouse::cow::CowTrait;
+    let mut m = U::default();
+    for (i, v) in pairs {
+        if cow {
+            if let Some(c) = m.get_cow_with(*i, |_| Some(v)) {
+                if let Ok(slot) = c.into_mut() {
+                    *slot = v.clone();
+                }
+            }
+        } else if let Some(slot) = m.get_mut_with(*i, |_| Some(v.clone())) {
+            *slot = v.clone();
+        }
     }
     m
 }
@@ -238,6 +261,9 @@ impl<T: Elem, N: Len, U: Map<T>> DynColl<T> for List<T, N, U> {
     fn bulk(&mut self, pairs: &[(usize, T)]) -> Option<Result<(), Error>> {
         Some(self.bulk_update(build_map::<T, U>(pairs)))
     }
+    fn bulk_via(&mut self, cow: bool, pairs: &[(usize, T)]) -> Option<Result<(), Error>> {
+        Some(self.bulk_update(build_map_via::<T, U>(cow, pairs)))
+    }
     fn pop_front(&mut self, n: usize) -> Option<Result<(), Error>> {
         Some(Self::pop_front(self, n))
     }
@@ -271,6 +297,9 @@ impl<T: Elem, N: Len, U: Map<T>> DynColl<T> for Vector<T, N, U> {
         None
     }
     fn bulk(&mut self, _: &[(usize, T)]) -> Option<Result<(), Error>> {
+        None
+    }
+    fn bulk_via(&mut self, _: bool, _: &[(usize, T)]) -> Option<Result<(), Error>> {
         None
     }
     fn pop_front(&mut self, _: usize) -> Option<Result<(), Error>> {
